@@ -1,6 +1,6 @@
 """C01 - BLTE encode/decode identity (structural clauses: block-index provenance, mode tables, chunk table)."""
 import re
-from .facts import op_local, Slice, place_fields, op_const
+from .facts import strip_regions, op_local, Slice, place_fields, op_const
 from .lib import bool_switches, must_pass, assigns_variant, enum_switches
 from .cachebooks import recv_fields
 
@@ -44,6 +44,18 @@ def r1_block_index(ctx):
             c = dec[0]
             sl = Slice(d, [op_local(c.args[2])], transparent=None) if op_local(c.args[2]) is not None else None
             from_enum = bool(sl) and any(re.search(r"\bEnumerate<", d.local_ty(l)) or re.search(r"Option<\(usize, ", d.local_ty(l)) for l in sl.locals)
+            # ... and the position is counted over ALL chunks: the Enumerate wraps the plain slice iterator, with no Filter / Skip /
+            # StepBy / Rev / Chain adaptor underneath (the encoder numbers every chunk it holds, empty ones included)
+            enum_tys = set()
+            for nc in (sl.calls if sl else []):
+                if re.search(r"\bIterator>?::next$", nc.orig_name or nc.name) and nc.args and op_local(nc.args[0]) is not None:
+                    enum_tys.add(strip_regions(d.local_ty(op_local(nc.args[0]))))
+            enum_tys = sorted(t for t in enum_tys if "Enumerate<" in t)
+            plain = bool(enum_tys) and all(re.search(r"Enumerate<core::slice::iter::Iter<", t) for t in enum_tys)
+            ctx.check(plain or not from_enum, rule, [d.id, "decoder-index-counts-every-chunk"], "the decoder's index enumerates the unfiltered chunk list",
+                      "decompress_with_keys numbers the chunks AFTER an iterator adaptor (%s): the block index of an encrypted chunk is no longer its "
+                      "position in the container, while the builder encrypts chunk k with index k - every encrypted chunk behind a skipped one decrypts to "
+                      "garbage with Ok status" % (enum_tys[:1],), c.loc(), sample={"enumerate_types": enum_tys[:2]})
             ctx.check(from_enum, rule, [d.id, "decoder-index"], "decoder uses the chunk's position as block index (premise)",
                       "decompress_with_keys no longer decrypts chunk k with block index k; R1's premise changed - re-derive the rule", c.loc(), sample={"decoder": d.id})
     # encoder side: wrappers forwarding their block_index parameter to the cipher
